@@ -34,7 +34,7 @@ type ON = *string
 //
 //	0 ""  (absent, invalid)   1 "stake" (held by everybody, a registered token)
 //	2 "tcoin" (valid, nobody holds it)   3 "!bad" (invalid characters)
-//	10 "htltbnb"  11 "htltinc" (htlc asset denoms)
+//	10 "htltbnb"  11 "htltinc" (htlc asset denoms)   12 "htlt!x" (htlc prefix, invalid characters)
 type Coin struct {
 	D int
 	A ON
@@ -70,12 +70,14 @@ func denomStr(d int) string {
 		return "htltbnb"
 	case 11:
 		return "htltinc"
+	case 12:
+		return "htlt!x" // carries the htlc prefix but is not a valid denom
 	}
 	return fmt.Sprintf("zz%d", d)
 }
 
 func denomClass(s string) int {
-	for _, d := range []int{0, 1, 2, 3, 10, 11} {
+	for _, d := range []int{0, 1, 2, 3, 10, 11, 12} {
 		if denomStr(d) == s {
 			return d
 		}
